@@ -9,7 +9,7 @@ RULE = ('operand format pairs with 2<=n_word<=12 and 0<=n_frac<=n_word-sign bit;
         'every code pair for words <=3, random codes otherwise; unary - + abs on every code of small formats. Compared: code, format, overflow/underflow flags, governing modes carried by the result, identity z is out; '
         'with the extracted Spec (exact result quantized) and the model (raw and repr). Non-trivial = the exact result is not representable in the target (rounding or overflow acts); distinct by full input.')
 ASSUMPTIONS = ['targets that would store a signed result into an unsigned out/out_like are not generated (the code rejects them with ValueError by design)',
-               'constants converted with op_input_size=best are taken as the Fxp the implementation builds (size inference is C06)']
+               'constants converted with op_input_size=best are taken as the Fxp the implementation builds (size inference is C06); under op_input_size=same the constant must be the plain number quantized (C01) into the fixed-point operand\'s format under that operand\'s modes, which is what like=self means']
 SIZINGS = ['optimal', 'same', 'largest', 'smallest']
 
 def small_fmt(rng, maxw=12):
@@ -137,7 +137,21 @@ def check(cases, res, stratum):
         ft2 = ft or sp['grow']
         modreq.append([41 if meth == 'raw' else 42, A.OPS[c['op']]] + e_fmt(*a[0]) + e_list([a[1]]) + e_fmt(*b[0]) + e_list([b[1]]) + e_fmt(*ft2) + [RMODES.index(r), OMODES.index(o)])
     mouts = model_call(modreq)
-    for (c, info), sp, mo_raw in zip(pend, finals, mouts):
+    # constants under op_input_size='same': the constant is the plain number quantized into the Fxp operand's format under that operand's modes (like=self)
+    creq = []; cidx = {}
+    for i, (c, info) in enumerate(pend):
+        if 'const' in c and c['input_size'] == 'same':
+            fm = tuple(c['x']) if c['const'] == 'y' else tuple(c['y']); md = (c['rx'], c['ox']) if c['const'] == 'y' else (c['ry'], c['oy'])
+            cidx[i] = (len(creq), fm, md)
+            creq.append([4] + e_fmt(*fm) + [RMODES.index(md[0]), OMODES.index(md[1])] + e_list([Fraction(c['const_val'])], lib.e_dy))
+    couts = model_call(creq)
+    for i, ((c, info), sp, mo_raw) in enumerate(zip(pend, finals, mouts)):
+        if i in cidx:
+            j, fm, md = cidx[i]; rd = Reader(couts[j]); kcode = rd.lst(rd.z)[0]
+            if info['const_fmt'] != fm or info['const_code'] != kcode or info['const_cfg'] != md:
+                res.count(stratum, key=repr(c), nontrivial=True)
+                res.fail(c, 'C08: a constant operand under op_input_size=same is not the constant quantized into the fixed-point operand\'s format under that operand\'s rounding and overflow modes',
+                         expected=(fm, kcode, md), got=(info['const_fmt'], info['const_code'], info['const_cfg'])); continue
         a, b, ft, (r, o), meth = expected_target(c, info)
         ft2 = ft or sp['grow']
         nontriv = sp['ovf'] or sp['unf'] or sp['inacc']
